@@ -36,7 +36,7 @@ theorem C09_finding_placemarker : ¬ C09_subst_spec_Statement := by
   intro h
   obtain ⟨m, hm, _⟩ := h Lex.lexOne id tBody tArgs [] spec_accepts
   rw [model_rejects] at hm
-  exact absurd hm (by decide)
+  cases hm
 
 /-- the whole pipeline agrees: from the empty table plus `t`, the model's `preprocess2` stops with the diagnostic,
     the specification's `expand` yields the empty token list -/
